@@ -577,8 +577,10 @@ def inject(rng, spec, cfg, kind):
         cands = [('mp', 'x'), ('mp', 99), ('mp', 1.5), ('op', 5), ('op', 'waytoolongvalue'), ('visibility', 'nonsense'),
                  ('visibility', 7), ('pollinterval', 'fast'), ('pollinterval', 1000), ('group', 5), ('export', 'maybe')]
         names = {m['name'] for m in spec['modprops']} | {'visibility', 'pollinterval', 'group', 'export'}
+        cands += [('group', None), ('mp', None), ('visibility', None)]
         k, v = rng.choice([c for c in cands if c[0] in names])
-        cfg[k] = ('bare', v) if rng.random() < 0.5 else ('dict', [('value', v)])
+        # a raw dict can not carry a bare None (`cfgdict.pop(key, None)`): config files wrap every value in Param()
+        cfg[k] = ('bare', v) if rng.random() < 0.5 and v is not None else ('dict', [('value', v)])
         return kind
     if not real:
         return None
@@ -1527,6 +1529,9 @@ def run(ctx):
                     mcfg = (d['cfg'] + mo['cfg']['extra']) if d['loads'] else None
                     if mcfg != mo['before']:
                         diffs.append(f'dict built by Mod(...): model {json.dumps(mcfg)[:300]} impl {json.dumps(mo["before"])[:300]}')
+                if not judge['hyp']:
+                    diffs.append('the class description / the written module is outside the hypotheses of the theorems '
+                                 '(WellFormed, WrittenOk, GroupsOk)')
                 if mo['after'] != mo['before']:
                     diffs.append(f'the configuration is only read: impl changed it to {json.dumps(mo["after"])[:300]} '
                                  f'from {json.dumps(mo["before"])[:300]}')
